@@ -1,0 +1,83 @@
+//go:build verif
+
+package metadata
+
+// Contracts checked by /verif (contract-based deductive verification).
+// This file is comment-only; it is compiled only with -tags=verif.
+
+//@ import strings "strings"
+
+// ---- C28: MD as a case-insensitive multimap ---------------------------------------------------
+//
+// Keys are folded with strings.ToLower on every access (modelled as byte-wise
+// ASCII lower-casing). Each operation is stated on the entry of the folded key.
+
+//@ func (MD).Get
+//@   prop C28
+//@   nopanic
+//@   ensures sameslice(result, md[strings.ToLower(k)])
+
+//@ func (MD).Len
+//@   prop C28
+//@   nopanic
+//@   ensures result == len(md)
+
+//@ func (MD).Set
+//@   prop C28
+//@   requires md != nil
+//@   ensures implies(len(vals) == 0, haskey(md, strings.ToLower(k)) == old(haskey(md, strings.ToLower(k))) && sameslice(md[strings.ToLower(k)], old(md[strings.ToLower(k)])))
+//@   ensures implies(len(vals) > 0, haskey(md, strings.ToLower(k)) && sameslice(md[strings.ToLower(k)], vals))
+
+//@ func (MD).Append
+//@   prop C28
+//@   requires md != nil
+//@   ensures implies(len(vals) == 0, sameslice(md[strings.ToLower(k)], old(md[strings.ToLower(k)])))
+//@   ensures implies(len(vals) > 0, haskey(md, strings.ToLower(k)) && len(md[strings.ToLower(k)]) == old(len(md[strings.ToLower(k)])) + len(vals))
+//@   ensures implies(len(vals) > 0, forall(func(j int) bool { return implies(0 <= j && j < old(len(md[strings.ToLower(k)])), md[strings.ToLower(k)][j] == old(md[strings.ToLower(k)][j])) }))
+//@   ensures implies(len(vals) > 0, forall(func(i int) bool { return implies(old(len(md[strings.ToLower(k)])) <= i && i < len(md[strings.ToLower(k)]), md[strings.ToLower(k)][i] == old(vals[i-len(md[strings.ToLower(k)])])) }))
+
+//@ func (MD).Delete
+//@   prop C28
+//@   nopanic
+//@   ensures !haskey(md, strings.ToLower(k))
+
+// copyOf: a fresh slice with the same elements (the caller may change it
+// without affecting the source).
+//@ func copyOf
+//@   prop C28
+//@   nopanic
+//@   ensures len(result) == len(v) && (len(v) == 0 || !sameslice(result, v))
+//@   ensures forall(func(j int) bool { return implies(0 <= j && j < len(v), result[j] == v[j]) })
+//@   ensures forall(func(j int) bool { return implies(0 <= j && j < len(v), v[j] == old(v[j])) })
+//@   ensures result == nil || fresh(result)
+
+// ---- C28: values read from a context are copies ---------------------------------------------------
+//
+// ValueFromOutgoingContext accumulates the base values and the appended values
+// of the key in a slice that is allocated inside the call: what it returns never
+// shares memory with the slices stored in the context.
+
+//@ func ValueFromOutgoingContext
+//@   prop C28
+//@   loop 2 invariant vals == nil || fresh(vals)
+//@   loop 3 invariant (vals == nil || fresh(vals)) && 0 <= i && i%2 == 0 && len(added)%2 == 0
+//@   assert at call append#1 fresh(arg0) && len(arg0) == 0 && sameslice(arg1, matchedMD)
+//@   assert at call append#2 fresh(arg0) && i+1 < len(added)
+//@   assert at call copyOf#1 sameslice(arg0, matchedMD) && vals == nil
+//@   ensures result == nil || fresh(result)
+
+//@ func ValueFromIncomingContext
+//@   prop C28
+//@   assert at call copyOf#1 haskey(md, key) && sameslice(arg0, md[key])
+//@   ensures result == nil || fresh(result)
+
+// AppendToOutgoingContext: an odd number of strings panics; otherwise the new
+// context's list of additions is the old one plus one fresh slice holding the
+// pairs in call order with lower-cased keys.
+//@ func AppendToOutgoingContext
+//@   prop C28
+//@   requires len(kv)%2 == 0
+//@   loop 1 invariant 0 <= i && i%2 == 0 && i <= len(kv) && len(kvCopy) == i && fresh(kvCopy) && len(added) == len(md.added)+1 && fresh(added)
+//@   loop 1 invariant forall(func(j int) bool { return implies(0 <= j && j < i, kvCopy[j] == ite(j%2 == 0, strings.ToLower(kv[j]), kv[j])) })
+//@   assert at call WithValue#1 len(kvCopy) == len(kv) && sameslice(added[len(added)-1], kvCopy)
+//@   assert at call WithValue#1 forall(func(j int) bool { return implies(0 <= j && j < len(kv), kvCopy[j] == ite(j%2 == 0, strings.ToLower(kv[j]), kv[j])) })
